@@ -123,6 +123,13 @@ def handle (op : String) (j : Json) : Option (R Json) :=
       let shifts := kept.map fun s => if s = 0 then ((0 : Float), (0 : Float)) else Gen.hexToRC sqrtN (cells.getD s (0, 0, 0)) (Gen.hexPitch radius gap) rot
       let px := (idxList size size).map fun (i, jj) =>
         (shifts.filter fun sh => hexagonAt half inner (fun n => Float.sin th[n]!) (fun n => Float.cos th[n]!) size size sh.1 sh.2 false i jj == 1).length
+      -- antialiased drawing (library default): the flattened sum of the segment masks
+      let aa := match optVal j "aa" with | some (Json.bool true) => true | _ => false
+      if aa then
+        let fl := (idxList size size).map fun (i, jj) =>
+          shifts.foldl (fun acc sh => acc + hexagonAt half inner (fun n => Float.sin th[n]!) (fun n => Float.cos th[n]!) size size sh.1 sh.2 true i jj) 0
+        pure (okJ [("size", intJ size), ("count", intJ kept.length), ("flat", floatsJ fl)])
+      else
       pure (okJ [("size", intJ size), ("count", intJ kept.length), ("sum", ints (px.map Int.ofNat).toArray)])
   | _ => none
 
